@@ -1,5 +1,5 @@
 (* The text-level loader statement on ARBITRARY database texts:
-     ascii_edges t = true -> known_db t = false -> load t = verdict_opt (spec_load t)
+     ascii_edges t = true -> load t = verdict_opt (spec_load t)
    composed from the line-level reader equalities (DbTextProofs, SigEquivProofs) and the snoc machinery of
    DbLoadProofs (abs_step / run_abs / mk_state / flatten). *)
 From Coq Require Import List NArith Bool Lia ZifyBool ZifyN.
@@ -76,11 +76,13 @@ Definition step_line (s : lstate) (line : bytes) : option lstate :=
   | c :: _ =>
     if beqb c ";"%byte then Some s
     else if starts_with (bs "classes") line then
-      match parse_classes line with Some (cs, _) => Some (set_classes s (s_classes s ++ cs)) | None => None end
+      match parse_classes line with Some (cs, []) => Some (set_classes s (s_classes s ++ cs)) | _ => None end
     else if starts_with (bs "ua_os") line then
-      match parse_ua_os line with Some (us, _) => Some (set_ua s (s_ua s ++ us)) | None => None end
+      match parse_ua_os line with Some (us, []) => Some (set_ua s (s_ua s ++ us)) | _ => None end
     else if beqb c "["%byte && ends_with_b "]"%byte line then
-      match parse_module line with Some (md, _) => Some (set_mod s (Some md)) | None => None end
+      match parse_module line with
+      | Some (md, []) => if is_known_module md then Some (set_mod s (Some md)) else None
+      | _ => None end
     else
       match s_mod s with
       | Some (m, d) =>
@@ -118,21 +120,6 @@ Definition to_item (cur : option sec) (sl : sline) : option item :=
       | Some (SecTQ | SecTS | SecHQ | SecHS), KSys => Some (ISys v)
       | _, _ => None end
   end.
-
-(* Spec.DbLoadSpec.lossy_line on an already trimmed line *)
-Definition lossy' (l : bytes) : bool :=
-  if starts_with (bs "classes") l || starts_with (bs "ua_os") l then
-    match cut "="%byte l with
-    | Some (_, rhs) => negb (plain_list (drop_while isblank rhs))
-    | None => false end
-  else match l with
-       | c :: rest => beqb c "["%byte &&
-                      match unsnoc rest with
-                      | Some (inner, e) => beqb e "]"%byte && existsb (fun b => beqb b "]"%byte) inner
-                      | None => false end
-       | [] => false end.
-Lemma lossy_line_trimmed raw : lossy_line raw = lossy' (trim_ascii raw).
-Proof. reflexivity. Qed.
 
 (* classification of a line that is neither empty, a comment, nor a [..] line *)
 Definition classify_kv (l : bytes) : sline :=
@@ -180,51 +167,98 @@ Qed.
 Lemma is_first t c0 k' : (match t with b :: _ => beqb c0 b = false | [] => True end) -> is t (c0 :: k') = false.
 Proof. unfold is. destruct t as [|b t]; [reflexivity|]. cbn [bytes_eqb]. intros ->. reflexivity. Qed.
 
-(* ---- plain lists ---- *)
+(* ---- list values: the loader's list parser (whole value consumed) = the reference's list reader ---- *)
 Definition rd_word (f : bytes) : option bytes := if word alnum f then Some f else None.
-Definition rd_plain_rule (f : bytes) : option (bytes * option bytes) := if word alnum f then Some (f, None) else None.
 
 Lemma cmp_word : cmp_ok alphanumeric1 rd_word.
 Proof. intros f v k H Hk. unfold rd_word in H. destruct (word alnum f) eqn:W; inversion H; subst. now apply alphanumeric1_word. Qed.
-Lemma cmp_plain_rule : cmp_ok parse_key_value rd_plain_rule.
+
+Lemma snd_word : snd_ok alphanumeric1 rd_word.
 Proof.
-  intros f v k H Hk. unfold rd_plain_rule in H. destruct (word alnum f) eqn:W; inversion H; subst.
-  pose proof (parse_key_value_plain (f, None) k) as P. unfold render_rule, plain_rule in P. cbn [fst snd] in P.
-  rewrite app_nil_r in P. apply P; [now rewrite W | assumption].
+  intros i w r H. unfold alphanumeric1, span1 in H. destruct (span_spec is_alnum i) as (S1 & S2 & _).
+  destruct (span is_alnum i) as [a c]. cbn [fst snd] in *. destruct a as [|a0 a']; inversion H; subst.
+  exists (a0 :: a'). repeat split.
+  - unfold clean. rewrite (avoid_of is_alnum colon_b), (avoid_of is_alnum comma_b) by (assumption || reflexivity). reflexivity.
+  - unfold rd_word, word. cbn [nonempty andb].
+    assert (W : forallb alnum (a0 :: a') = true) by (rewrite forallb_forall in *; intros b Hb; rewrite alnum_is_alnum'; auto).
+    now rewrite W.
 Qed.
 
-Lemma all_some_plain {A} (g : bytes -> A) (R : bytes -> option A) items :
-  (forall f, word alnum f = true -> R f = Some (g f)) -> forallb (word alnum) items = true ->
-  all_some (map R items) = Some (map g items).
+Lemma avoid_p0f c l : is_name_char c = false -> forallb is_name_char l = true -> avoid c l = true.
+Proof. intros Hc H. now apply (avoid_of is_name_char). Qed.
+
+Lemma cut_none c l : avoid c l = true -> cut c l = None.
+Proof. induction l as [|x q IH]; [reflexivity|]. cbn. intros A. apply andb_true_iff in A as [Ax Aq]. destruct (beqb x c); [discriminate|]. now rewrite IH. Qed.
+
+Lemma rd_ua_rule_render x : rule_ok x = true -> rd_ua_rule (render_rule x) = Some x.
 Proof.
-  intros HR. induction items as [|f items IH]; [reflexivity|]. cbn. intros H. apply andb_true_iff in H as [Hf Hi].
-  rewrite (HR f Hf), IH by assumption. reflexivity.
+  destruct x as [name [v|]]; unfold rule_ok, render_rule; cbn [fst snd]; intros H.
+  - apply andb_true_iff in H as [Hn Hv]. destruct (word_p0f_model name Hn) as [_ An]. unfold rd_ua_rule.
+    change (bs "=[" ++ v ++ bs "]") with ("="%byte :: "["%byte :: v ++ ["]"%byte]).
+    rewrite cut_app by (now apply avoid_p0f). rewrite unsnoc_snoc.
+    change (beqb "["%byte "["%byte) with true. change (beqb "]"%byte "]"%byte) with true. cbn [andb]. now rewrite Hn, Hv.
+  - rewrite andb_true_r in H. rewrite app_nil_r. destruct (word_p0f_model name H) as [_ An]. unfold rd_ua_rule.
+    rewrite cut_none by (now apply avoid_p0f). now rewrite H.
 Qed.
 
-Lemma rd_ua_rule_word f : word alnum f = true -> rd_ua_rule f = Some (f, None).
+Lemma rd_ua_rule_inv f x : rd_ua_rule f = Some x -> f = render_rule x /\ rule_ok x = true.
 Proof.
-  intros W. unfold rd_ua_rule. destruct (word_alnum_parts f W) as (Ha & _).
-  assert (C : cut "="%byte f = None).
-  { assert (A : avoid "="%byte f = true) by (apply (avoid_of is_alnum); auto).
-    clear -A. induction f as [|x q IH]; [reflexivity|]. cbn in *. apply andb_true_iff in A as [Ax Aq].
-    destruct (beqb x "="%byte); [discriminate|]. now rewrite IH. }
-  rewrite C. assert (P : word p0f_name_char f = true).
-  { unfold word in *. apply andb_true_iff in W as [W1 W2]. rewrite W1. cbn. rewrite forallb_forall in *. intros b Hb.
-    unfold p0f_name_char. now rewrite (W2 b Hb). }
-  now rewrite P.
+  unfold rd_ua_rule. destruct (cut "="%byte f) as [[name r]|] eqn:C.
+  - destruct r as [|b r']; [discriminate|]. destruct (unsnoc r') as [[v e]|] eqn:U; [|discriminate].
+    destruct (beqb b "["%byte && beqb e "]"%byte && word p0f_name_char name && word p0f_name_char v) eqn:K; [|discriminate].
+    intros H. inversion H; subst x. rewrite !andb_true_iff in K. destruct K as [[[Kb Ke] Kn] Kv].
+    apply beqb_eq in Kb, Ke. subst b e. apply cut_inv in C as [-> _]. apply unsnoc_inv in U. subst r'.
+    unfold render_rule, rule_ok. cbn [fst snd]. split; [reflexivity | now rewrite Kn, Kv].
+  - destruct (word p0f_name_char f) eqn:W; [|discriminate]. intros H. inversion H; subst x.
+    unfold render_rule, rule_ok. cbn [fst snd]. split; [now rewrite app_nil_r | now rewrite W].
 Qed.
 
-Lemma plain_classes v : plain_list v = true -> exists cs, rd_classes v = Some cs /\ rd_list rd_word v = Some cs.
+Lemma cmp_ua_rule : cmp_ok parse_key_value rd_ua_rule.
+Proof. intros f x k H Hk. apply rd_ua_rule_inv in H as [-> Hr]. now apply parse_key_value_rule. Qed.
+
+Lemma span1_inv p i a r : span1 p i = Some (a, r) -> i = a ++ r /\ a <> [] /\ forallb p a = true.
 Proof.
-  unfold plain_list, rd_classes, rd_list. destruct v as [|b q]; [intros _; now exists []|]. intros H.
-  exists (map (fun f => f) (split_on ","%byte (b :: q))). split; apply all_some_plain; auto; intros f W; unfold rd_word; now rewrite W.
+  unfold span1. destruct (span_spec p i) as (S1 & S2 & _). destruct (span p i) as [a' c]. cbn [fst snd] in *.
+  destruct a'; intros H; inversion H; subst. repeat split; auto. congruence.
 Qed.
-Lemma plain_ua_os v : plain_list v = true -> exists rs, rd_ua_os v = Some rs /\ rd_list rd_plain_rule v = Some rs.
+
+Lemma word_p0f_of a : a <> [] -> forallb is_name_char a = true -> word p0f_name_char a = true.
 Proof.
-  unfold plain_list, rd_ua_os, rd_list. destruct v as [|b q]; [intros _; now exists []|]. intros H.
-  exists (map (fun f => (f, @None bytes)) (split_on ","%byte (b :: q))). split; apply all_some_plain; auto.
-  - apply rd_ua_rule_word.
-  - intros f W. unfold rd_plain_rule. now rewrite W.
+  intros Hne H. unfold word. destruct a; [congruence|]. cbn [nonempty andb]. rewrite forallb_forall in *. intros z Hz.
+  rewrite p0f_name_is_name_char. auto.
+Qed.
+
+Lemma snd_ua_rule : snd_ok parse_key_value rd_ua_rule.
+Proof.
+  intros i x r H. unfold parse_key_value in H.
+  destruct (span1 is_name_char i) as [[name r0]|] eqn:E0; [|discriminate].
+  apply span1_inv in E0 as (-> & Hne & Hn). pose proof (word_p0f_of name Hne Hn) as Wn.
+  assert (Plain : exists c, name ++ r0 = c ++ r0 /\ clean c = true /\ rd_ua_rule c = Some (name, None)).
+  { exists name. repeat split.
+    - unfold clean. rewrite (avoid_p0f colon_b), (avoid_p0f comma_b) by (assumption || reflexivity). reflexivity.
+    - pose proof (rd_ua_rule_render (name, None)) as P. unfold render_rule, rule_ok in P. cbn [fst snd] in P.
+      rewrite app_nil_r in P. apply P. now rewrite Wn. }
+  destruct (strip_prefix (bs "=[") r0) as [r1|] eqn:E1; [|inversion H; subst; exact Plain].
+  destruct (span1 is_name_char r1) as [[v r2]|] eqn:E2; [|inversion H; subst; exact Plain].
+  destruct (strip_prefix (bs "]") r2) as [r3|] eqn:E3; inversion H; subst; [|exact Plain].
+  apply strip_prefix_inv in E1, E3. apply span1_inv in E2 as (-> & Hnv & Hv). subst r0 r2.
+  pose proof (word_p0f_of v Hnv Hv) as Wv.
+  exists (render_rule (name, Some v)). unfold render_rule. cbn [fst snd]. repeat split.
+  - now rewrite <- !app_assoc.
+  - unfold clean. rewrite !avoid_app. rewrite (avoid_p0f colon_b name), (avoid_p0f comma_b name), (avoid_p0f colon_b v), (avoid_p0f comma_b v) by (assumption || reflexivity). reflexivity.
+  - pose proof (rd_ua_rule_render (name, Some v)) as P. unfold render_rule, rule_ok in P. cbn [fst snd] in P. apply P. now rewrite Wn, Wv.
+Qed.
+
+Lemma list_full {A} (P : parser A) (R : bytes -> option A) : snd_ok P R -> cmp_ok P R -> R [] = None -> P [] = None ->
+  forall v, match separated_list0 comma P v with Some (vs, []) => Some vs | _ => None end = rd_list R v.
+Proof.
+  intros HS HC HR HP v. destruct (separated_list0 comma P v) as [[vs r]|] eqn:E.
+  - destruct r as [|b r'].
+    + destruct (list_snd P R HS HR _ _ _ E) as (c & Ec & _ & Rc). rewrite app_nil_r in Ec. subst c. now rewrite Rc.
+    + destruct (rd_list R v) as [ws|] eqn:RL; [|reflexivity].
+      pose proof (list_cmp P R HC v ws [] RL eq_refl eq_refl HP) as X. rewrite app_nil_r in X. rewrite X in E. discriminate.
+  - destruct (rd_list R v) as [ws|] eqn:RL; [|reflexivity].
+    pose proof (list_cmp P R HC v ws [] RL eq_refl eq_refl HP) as X. rewrite app_nil_r in X. rewrite X in E. discriminate.
 Qed.
 
 Definition line_result (s : lstate) (cur : option sec) (l : bytes) : option lstate :=
@@ -238,14 +272,14 @@ Lemma kv_other c0 rest cur :
   isblank c0 = false -> beqb c0 "="%byte = false -> beqb c0 "l"%byte = false -> beqb c0 "s"%byte = false ->
   (forall lhs rhs, cut "="%byte (c0 :: rest) = Some (lhs, rhs) ->
      is (bs "classes") (rtrim_blank lhs) = false /\ is (bs "ua_os") (rtrim_blank lhs) = false) ->
-  cur <> Some SecOther -> unknown_item (cur, classify_kv (c0 :: rest)) = false ->
+  cur <> Some SecOther ->
   to_item cur (classify_kv (c0 :: rest)) = None.
 Proof.
-  intros Hb He Hl Hs Hk Hcur Hun. unfold classify_kv in *. destruct (cut "="%byte (c0 :: rest)) as [[lhs rhs]|] eqn:C; [|reflexivity].
+  intros Hb He Hl Hs Hk Hcur. unfold classify_kv in *. destruct (cut "="%byte (c0 :: rest)) as [[lhs rhs]|] eqn:C; [|reflexivity].
   destruct (Hk _ _ eq_refl) as [K1 K2]. rewrite K1, K2 in *. destruct (key_first _ _ _ _ Hb He C) as (k' & Ek). rewrite Ek in *.
   destruct (word alnum (c0 :: k')); [|reflexivity].
   rewrite (is_first (bs "label")), (is_first (bs "sig")), (is_first (bs "sys")) in * by assumption.
-  destruct cur as [c|]; [|reflexivity]. rewrite unknown_other in Hun by congruence. discriminate.
+  destruct cur as [[]|]; try reflexivity; congruence.
 Qed.
 
 Lemma space0_blank bl r : forallb isblank bl = true -> stops isblank r = true -> space0 (bl ++ r) = r.
@@ -281,22 +315,22 @@ Proof.
       inversion S. subst. now rewrite beqb_refl in Ex.
 Qed.
 
-Lemma line_classes s cur R : lossy' (bs "classes" ++ R) = false -> cur <> Some SecOther ->
-  unknown_item (cur, classify (bs "classes" ++ R)) = false ->
-  match parse_classes (bs "classes" ++ R) with Some (cs, _) => Some (set_classes s (s_classes s ++ cs)) | None => None end
+Lemma line_classes s cur R : cur <> Some SecOther ->
+  match parse_classes (bs "classes" ++ R) with Some (cs, []) => Some (set_classes s (s_classes s ++ cs)) | _ => None end
   = line_result s cur (bs "classes" ++ R).
 Proof.
-  intros Hl Hcur Hun. unfold line_result.
+  intros Hcur. unfold line_result.
   change (bs "classes" ++ R) with ("c"%byte :: (bs "lasses" ++ R)) in *.
   rewrite classify_nonbracket in * by reflexivity.
   change ("c"%byte :: (bs "lasses" ++ R)) with (bs "classes" ++ R) in *.
   unfold parse_classes. rewrite strip_prefix_app.
   destruct (list_line_shape (bs "classes") R ltac:(discriminate) eq_refl eq_refl)
     as [(bl & rhs & -> & Hbl & C & K & S) | [S Hk]].
-  - rewrite S. unfold lossy' in Hl. rewrite starts_with_app in Hl. cbn [orb] in Hl. rewrite C in Hl. apply negb_false_iff in Hl.
-    destruct (plain_classes _ Hl) as (cs & R1 & R2). rewrite space0_drop.
-    pose proof (list_cmp _ _ cmp_word _ _ [] R2 eq_refl eq_refl eq_refl) as P. rewrite app_nil_r in P. rewrite P.
-    unfold classify_kv. rewrite C, K. change (is (bs "classes") (bs "classes")) with true. cbv iota. rewrite R1. reflexivity.
+  - rewrite S. rewrite space0_drop.
+    pose proof (list_full _ _ snd_word cmp_word eq_refl eq_refl (drop_while isblank rhs)) as P.
+    unfold classify_kv. rewrite C, K. change (is (bs "classes") (bs "classes")) with true. cbv iota.
+    change (rd_classes (drop_while isblank rhs)) with (rd_list rd_word (drop_while isblank rhs)). rewrite <- P.
+    destruct (separated_list0 comma alphanumeric1 (drop_while isblank rhs)) as [[cs [|b q]]|]; reflexivity.
   - rewrite S. symmetry.
     change (bs "classes" ++ R) with ("c"%byte :: (bs "lasses" ++ R)) in *.
     rewrite kv_other; try reflexivity; try assumption.
@@ -304,23 +338,22 @@ Proof.
     destruct (key_first "c"%byte _ _ _ eq_refl eq_refl C) as (k' & ->). now apply is_first.
 Qed.
 
-Lemma line_ua_os s cur R : lossy' (bs "ua_os" ++ R) = false -> cur <> Some SecOther ->
-  unknown_item (cur, classify (bs "ua_os" ++ R)) = false ->
-  match parse_ua_os (bs "ua_os" ++ R) with Some (us, _) => Some (set_ua s (s_ua s ++ us)) | None => None end
+Lemma line_ua_os s cur R : cur <> Some SecOther ->
+  match parse_ua_os (bs "ua_os" ++ R) with Some (us, []) => Some (set_ua s (s_ua s ++ us)) | _ => None end
   = line_result s cur (bs "ua_os" ++ R).
 Proof.
-  intros Hl Hcur Hun. unfold line_result.
+  intros Hcur. unfold line_result.
   change (bs "ua_os" ++ R) with ("u"%byte :: (bs "a_os" ++ R)) in *.
   rewrite classify_nonbracket in * by reflexivity.
   change ("u"%byte :: (bs "a_os" ++ R)) with (bs "ua_os" ++ R) in *.
   unfold parse_ua_os. rewrite strip_prefix_app.
   destruct (list_line_shape (bs "ua_os") R ltac:(discriminate) eq_refl eq_refl)
     as [(bl & rhs & -> & Hbl & C & K & S) | [S Hk]].
-  - rewrite S. unfold lossy' in Hl. rewrite starts_with_app in Hl. rewrite orb_true_r in Hl. rewrite C in Hl. apply negb_false_iff in Hl.
-    destruct (plain_ua_os _ Hl) as (rs & R1 & R2). rewrite space0_drop.
-    pose proof (list_cmp _ _ cmp_plain_rule _ _ [] R2 eq_refl eq_refl eq_refl) as P. rewrite app_nil_r in P. rewrite P.
+  - rewrite S. rewrite space0_drop.
+    pose proof (list_full _ _ snd_ua_rule cmp_ua_rule eq_refl eq_refl (drop_while isblank rhs)) as P.
     unfold classify_kv. rewrite C, K. change (is (bs "classes") (bs "ua_os")) with false. change (is (bs "ua_os") (bs "ua_os")) with true.
-    cbv iota. rewrite R1. reflexivity.
+    cbv iota. change (rd_ua_os (drop_while isblank rhs)) with (rd_list rd_ua_rule (drop_while isblank rhs)). rewrite <- P.
+    destruct (separated_list0 comma parse_key_value (drop_while isblank rhs)) as [[rs [|b q]]|]; reflexivity.
   - rewrite S. symmetry.
     change (bs "ua_os" ++ R) with ("u"%byte :: (bs "a_os" ++ R)) in *.
     rewrite kv_other; try reflexivity; try assumption.
@@ -359,17 +392,21 @@ Qed.
 Lemma avoid_in c l : avoid c l = true -> In c l -> False.
 Proof. unfold avoid. rewrite forallb_forall. intros H Hin. specialize (H c Hin). now rewrite beqb_refl in H. Qed.
 
-Lemma parse_module_shape inner x : avoid "]"%byte inner = true ->
-  parse_module ("["%byte :: inner ++ ["]"%byte]) = Some x -> rd_section inner <> None.
+(* a [..] line the loader's module parser consumes completely: what is inside, and what it returns *)
+Lemma parse_module_inv inner md : parse_module ("["%byte :: inner ++ ["]"%byte]) = Some (md, []) ->
+  (md = (inner, None) /\ word alpha inner = true /\ avoid ":"%byte inner = true) \/
+  (exists m x, md = (m, Some x) /\ inner = m ++ bs ":" ++ x /\ word alpha m = true /\ avoid ":"%byte m = true /\
+               word alpha x = true /\ avoid ":"%byte x = true).
 Proof.
-  intros Hin. unfold parse_module. cbn [strip_prefix bs bs_to]. change (beqb "["%byte "["%byte) with true. cbv iota.
+  unfold parse_module. cbn [strip_prefix bs bs_to]. change (beqb "["%byte "["%byte) with true. cbv iota.
   unfold alpha1, span1. rewrite (span_app_stops is_alpha inner ["]"%byte]) by reflexivity.
   destruct (span_spec is_alpha inner) as (S1 & S2 & S3). destruct (span is_alpha inner) as [m i1]. cbn [fst snd] in *.
   destruct m as [|m0 m']; [discriminate|]. set (m := m0 :: m') in *.
   destruct (word_alpha_model m ltac:(discriminate) S2) as [Wm Am].
   destruct i1 as [|y i1'].
-  - cbn [app strip_prefix colon bs bs_to]. change (beqb ":"%byte "]"%byte) with false. cbv iota. intros _.
-    rewrite app_nil_r in S1. subst inner. apply (rd_section_words m [] Wm Am).
+  - cbn [app strip_prefix colon bs bs_to fst snd]. change (beqb ":"%byte "]"%byte) with false. cbv iota.
+    cbn [fst snd strip_prefix bs bs_to]. change (beqb "]"%byte "]"%byte) with true. cbv iota.
+    intros H. inversion H; subst md. rewrite app_nil_r in S1. subst inner. left. auto.
   - cbn [app strip_prefix colon bs bs_to]. destruct (beqb ":"%byte y) eqn:Ey.
     + apply beqb_eq in Ey. subst y.
       rewrite (span_app_stops is_alpha i1' ["]"%byte]) by reflexivity.
@@ -377,15 +414,32 @@ Proof.
       destruct x' as [|x0 x''].
       * cbn [fst snd strip_prefix bs bs_to]. change (beqb "]"%byte ":"%byte) with false. discriminate.
       * set (xx := x0 :: x'') in *. cbn [fst snd]. destruct i3 as [|z i3'].
-        -- intros _. rewrite app_nil_r in T1. subst i1' inner.
+        -- cbn [app strip_prefix bs bs_to]. change (beqb "]"%byte "]"%byte) with true. cbv iota.
+           intros H. inversion H; subst md. rewrite app_nil_r in T1. subst i1' inner.
            destruct (word_alpha_model xx ltac:(discriminate) T2) as [Wx Ax].
-           apply (rd_section_words m xx Wm Am); assumption.
-        -- cbn [app strip_prefix bs bs_to]. destruct (beqb "]"%byte z) eqn:Ez; [|discriminate].
-           apply beqb_eq in Ez. subst z. exfalso. apply (avoid_in _ _ Hin). subst i1' inner.
-           rewrite !in_app_iff. cbn [In]. rewrite !in_app_iff. cbn [In]. intuition.
-    + cbn [fst snd strip_prefix bs bs_to]. destruct (beqb "]"%byte y) eqn:Ez; [|discriminate].
-      apply beqb_eq in Ez. subst y. exfalso. apply (avoid_in _ _ Hin). subst inner.
-      rewrite !in_app_iff. cbn [In]. intuition.
+           right. exists m, xx. repeat split; auto.
+        -- cbn [app strip_prefix bs bs_to]. destruct (beqb "]"%byte z); [|discriminate].
+           intros H. inversion H. destruct i3'; discriminate.
+    + cbn [fst snd strip_prefix bs bs_to]. destruct (beqb "]"%byte y); [|discriminate].
+      intros H. inversion H. destruct i1'; discriminate.
+Qed.
+
+Lemma parse_module_full inner x : parse_module ("["%byte :: inner ++ ["]"%byte]) = Some (x, []) -> rd_section inner <> None.
+Proof.
+  intros H. destruct (parse_module_inv _ _ H) as [(_ & W & A) | (m & xx & _ & -> & Wm & Am & Wx & Ax)].
+  - apply (rd_section_words inner [] W A).
+  - apply (rd_section_words m xx Wm Am); assumption.
+Qed.
+
+(* if, moreover, the loader knows the module, the reference knows the section *)
+Lemma parse_module_known inner md : parse_module ("["%byte :: inner ++ ["]"%byte]) = Some (md, []) ->
+  is_known_module md = true -> exists sc, sc <> SecOther /\ rd_section inner = Some sc.
+Proof.
+  intros H K. destruct (parse_module_inv _ _ H) as [(-> & _) | (m & xx & -> & -> & _)]; unfold is_known_module in K; cbn [fst snd] in K.
+  - apply bytes_eqb_eq in K. subst inner. exists SecMtu. split; [discriminate | reflexivity].
+  - apply andb_true_iff in K as [K1 K2]. apply orb_true_iff in K1, K2.
+    destruct K1 as [K1|K1]; apply bytes_eqb_eq in K1; subst m; destruct K2 as [K2|K2]; apply bytes_eqb_eq in K2; subst xx;
+      [exists SecTQ | exists SecTS | exists SecHQ | exists SecHS]; (split; [discriminate | reflexivity]).
 Qed.
 
 Definition sec_inner (sc : sec) : bytes :=
@@ -404,13 +458,14 @@ Proof.
     repeat (match type of H with context [if ?c then _ else _] => destruct c end); inversion H; subst; congruence.
 Qed.
 
-Lemma line_module s cur rest : ends_with_b "]"%byte ("["%byte :: rest) = true -> lossy' ("["%byte :: rest) = false ->
-  unknown_item (cur, classify ("["%byte :: rest)) = false ->
-  match parse_module ("["%byte :: rest) with Some (md, _) => Some (set_mod s (Some md)) | None => None end
+Lemma line_module s cur rest : ends_with_b "]"%byte ("["%byte :: rest) = true ->
+  match parse_module ("["%byte :: rest) with
+  | Some (md, []) => if is_known_module md then Some (set_mod s (Some md)) else None
+  | _ => None end
   = line_result s cur ("["%byte :: rest).
 Proof.
-  intros He Hl Hun. unfold line_result, classify in *. change (beqb "["%byte ";"%byte) with false in *. cbv iota in *.
-  rewrite ends_with_unsnoc in He. rewrite He in *. cbn [andb] in *.
+  intros He. unfold line_result, classify in *. change (beqb "["%byte ";"%byte) with false in *. cbv iota in *.
+  rewrite ends_with_unsnoc in He. rewrite He in *. change (beqb "["%byte "["%byte) with true in *. cbn [andb] in *.
   destruct (unsnoc ("["%byte :: rest)) as [[pre e]|] eqn:U; [|discriminate]. apply beqb_eq in He. subst e.
   apply unsnoc_inv in U. destruct rest as [|r0 rest'].
   { destruct pre as [|p0 [|p1 pre']]; cbn in U; inversion U. }
@@ -420,19 +475,14 @@ Proof.
   apply unsnoc_inv in U2. rewrite U2 in *.
   assert (e = "]"%byte /\ pre = "["%byte :: inner) as [-> ->].
   { change ("["%byte :: inner ++ [e]) with (("["%byte :: inner) ++ [e]) in U. apply app_inj_tail in U. destruct U; auto. }
-  unfold lossy' in Hl. change (starts_with (bs "classes") ("["%byte :: inner ++ ["]"%byte])) with false in Hl.
-  change (starts_with (bs "ua_os") ("["%byte :: inner ++ ["]"%byte])) with false in Hl. cbn [orb] in Hl.
-  change (beqb "["%byte "["%byte) with true in Hl. cbn [andb] in Hl. rewrite unsnoc_snoc in Hl.
-  change (beqb "]"%byte "]"%byte) with true in Hl. cbn [andb] in Hl.
-  assert (Hin : avoid "]"%byte inner = true).
-  { unfold avoid. rewrite forallb_forall. intros b Hb. destruct (beqb b "]"%byte) eqn:Eb; [|reflexivity].
-    assert (existsb (fun b0 => beqb b0 "]"%byte) inner = true) by (apply existsb_exists; eauto). congruence. }
   destruct (rd_section inner) as [sc|] eqn:RS.
   - destruct sc; cbn [to_item] in *;
       try (apply rd_section_inv in RS; [|congruence]; subst inner; reflexivity).
-    change (beqb "["%byte "["%byte) with true in Hun. cbn [andb] in Hun. destruct cur as [[]|]; discriminate.
-  - cbn [to_item]. destruct (parse_module ("["%byte :: inner ++ ["]"%byte])) as [[md r]|] eqn:P; [|reflexivity].
-    exfalso. now apply (parse_module_shape inner _ Hin P).
+    destruct (parse_module ("["%byte :: inner ++ ["]"%byte])) as [[md [|b q]]|] eqn:P; try reflexivity.
+    destruct (is_known_module md) eqn:K; [|reflexivity].
+    destruct (parse_module_known _ _ P K) as (sc & Hsc & E). congruence.
+  - cbn [to_item]. destruct (parse_module ("["%byte :: inner ++ ["]"%byte])) as [[md [|b q]]|] eqn:P; try reflexivity.
+    exfalso. now apply (parse_module_full inner _ P).
 Qed.
 
 (* ---- `name = value` lines inside (or outside) a module ---- *)
@@ -452,12 +502,12 @@ Proof. destruct (rd_mtu v); reflexivity. Qed.
 Lemma line_named s cur c0 rest :
   beqb c0 ";"%byte = false -> starts_with (bs "classes") (c0 :: rest) = false -> starts_with (bs "ua_os") (c0 :: rest) = false ->
   beqb c0 "["%byte && ends_with_b "]"%byte (c0 :: rest) = false ->
-  s_mod s = mod_of cur -> cur <> Some SecOther -> unknown_item (cur, classify (c0 :: rest)) = false ->
+  s_mod s = mod_of cur -> cur <> Some SecOther ->
   match s_mod s with
   | Some (m, d) => match parse_named_value (c0 :: rest) with Some (n, v) => step_named s m d n v | None => None end
   | None => None end = line_result s cur (c0 :: rest).
 Proof.
-  intros H1 H2 H3 H4 Hm Hcur Hun. unfold line_result. rewrite classify_nonbracket in * by assumption.
+  intros H1 H2 H3 H4 Hm Hcur. unfold line_result. rewrite classify_nonbracket in * by assumption.
   rewrite parse_named_value_eq_spec. unfold spec_named, classify_kv in *.
   destruct (cut "="%byte (c0 :: rest)) as [[lhs rhs]|] eqn:C.
   2:{ cbn [to_item]. now destruct (s_mod s) as [[m d]|]. }
@@ -492,16 +542,19 @@ Proof.
     - rewrite u16_from_str_eq_spec. symmetry. apply mtu_sig_branch. }
   destruct (is (bs "sys") k) eqn:Iy.
   { apply is_true in Iy. rewrite Iy in *. clear Is Il Iy.
-    destruct c; try congruence; cbn [mod_of to_item abs_step]; try reflexivity. cbn in Hun. discriminate. }
-  rewrite unknown_other in Hun by congruence. discriminate.
+    destruct c; try congruence; cbn [mod_of to_item abs_step]; reflexivity. }
+  assert (Nl : bytes_eqb k (bs "label") = false) by exact Il.
+  assert (Ns : bytes_eqb k (bs "sig") = false) by exact Is.
+  assert (Ny : bytes_eqb k (bs "sys") = false) by exact Iy.
+  destruct c; try congruence; cbn [mod_of to_item]; unfold step_named; rewrite Nl, Ns, Ny; reflexivity.
 Qed.
 
 (* ---- Lemma M: every line ---- *)
 Lemma step_line_result s cur l :
-  s_mod s = mod_of cur -> cur <> Some SecOther -> lossy' l = false -> unknown_item (cur, classify l) = false ->
+  s_mod s = mod_of cur -> cur <> Some SecOther ->
   step_line s l = line_result s cur l.
 Proof.
-  intros Hm Hcur Hl Hun. destruct l as [|c0 rest]; [reflexivity|]. unfold step_line.
+  intros Hm Hcur. destruct l as [|c0 rest]; [reflexivity|]. unfold step_line.
   destruct (beqb c0 ";"%byte) eqn:E1.
   { unfold line_result, classify. now rewrite E1. }
   destruct (starts_with (bs "classes") (c0 :: rest)) eqn:E2.
@@ -524,13 +577,6 @@ Fixpoint to_items (cur : option sec) (sl : list sline) : option (list item) :=
               | None => None end
   end.
 
-(* no line of the text is in one of the two known classes (threaded with the current section) *)
-Fixpoint lines_clean (cur : option sec) (ls : list bytes) : bool :=
-  match ls with
-  | [] => true
-  | l :: r => negb (lossy' l) && negb (unknown_item (cur, classify l)) && lines_clean (nsec cur (classify l)) r
-  end.
-
 Lemma to_item_next cur x it : to_item cur x = Some it -> next_sec cur it = nsec cur x /\ nsec cur x <> Some SecOther \/ True.
 Proof. auto. Qed.
 
@@ -546,16 +592,15 @@ Proof.
   - discriminate.
 Qed.
 
-Lemma run_trimmed_items ls : forall s cur, s_mod s = mod_of cur -> cur <> Some SecOther -> lines_clean cur ls = true ->
+Lemma run_trimmed_items ls : forall s cur, s_mod s = mod_of cur -> cur <> Some SecOther ->
   run_trimmed s ls = match to_items cur (map classify ls) with Some its => run_abs s cur its | None => None end.
 Proof.
-  induction ls as [|l ls IH]; intros s cur Hm Hcur Hc; [reflexivity|].
-  cbn [lines_clean] in Hc. rewrite !andb_true_iff, !negb_true_iff in Hc. destruct Hc as [[Hl Hu] Hc].
+  induction ls as [|l ls IH]; intros s cur Hm Hcur; [reflexivity|].
   cbn [run_trimmed map to_items]. rewrite (step_line_result s cur l) by assumption. unfold line_result.
   destruct (to_item cur (classify l)) as [it|] eqn:T; [|reflexivity].
   destruct (to_item_sec _ _ _ T Hcur) as [N1 N2].
   destruct (abs_step s cur it) as [s'|] eqn:A.
-  - rewrite (IH s' (nsec cur (classify l))); [| rewrite <- N1; eapply abs_step_mod; eauto | assumption | assumption].
+  - rewrite (IH s' (nsec cur (classify l))); [| rewrite <- N1; eapply abs_step_mod; eauto | assumption].
     destruct (to_items (nsec cur (classify l)) (map classify ls)) as [its|]; [|reflexivity].
     cbn [run_abs]. now rewrite A, N1.
   - destruct (to_items (nsec cur (classify l)) (map classify ls)) as [its|]; [|reflexivity]. cbn [run_abs]. now rewrite A.
@@ -572,11 +617,10 @@ Qed.
 (* the model side: loading = the denotation of the items the reference classification yields *)
 Lemma load_as_items t :
   existsb non_ascii_edge (text_lines t []) = false ->
-  lines_clean None (map trim_ascii (text_lines t [])) = true ->
   load t = match to_items None (map classify (map trim_ascii (text_lines t []))) with Some its => flatten its | None => None end.
 Proof.
-  intros Ha Hc. unfold load, load_lines. rewrite run_lines_trimmed. unfold lines. rewrite lines_trim by assumption.
-  rewrite (run_trimmed_items _ st0 None) by (try reflexivity; try discriminate; assumption).
+  intros Ha. unfold load, load_lines. rewrite run_lines_trimmed. unfold lines. rewrite lines_trim by assumption.
+  rewrite (run_trimmed_items _ st0 None) by (try reflexivity; discriminate).
   destruct (to_items None _) as [its|]; [|reflexivity]. rewrite run_abs_mk_state. apply finish_mk_state.
 Qed.
 
@@ -785,31 +829,36 @@ Proof.
 Qed.
 
 (* ================= the theorem ================= *)
-Lemma lines_clean_of ls : forall cur, forallb (fun l => negb (lossy' l)) ls = true ->
-  existsb unknown_item (annotate cur (map classify ls)) = false -> lines_clean cur ls = true.
+Lemma to_item_known cur x it : to_item cur x = Some it -> unknown_item (cur, x) = false.
 Proof.
-  induction ls as [|l ls IH]; intros cur Hl Hu; [reflexivity|].
-  cbn [forallb map] in *. rewrite ann_cons_unknown in Hu. apply orb_false_iff in Hu as [Hu1 Hu2].
-  apply andb_true_iff in Hl as [Hl1 Hl2]. cbn [lines_clean]. rewrite Hl1, Hu1. cbn. now apply IH.
+  destruct x as [| | |sc|k v|]; cbn [to_item]; intros H; try discriminate;
+    try (destruct cur as [[]|]; reflexivity).
+  - destruct sc; try discriminate; destruct cur as [[]|]; reflexivity.
+  - destruct cur as [[]|], k; try discriminate; reflexivity.
 Qed.
 
-Theorem load_eq_spec_load t : ascii_edges t = true -> known_db t = false -> load t = verdict_opt (spec_load t).
+Lemma spec_no_unknown sl : forall cur its, to_items cur sl = Some its -> cur <> Some SecOther ->
+  existsb unknown_item (annotate cur sl) = false.
 Proof.
-  unfold ascii_edges, known_db, known_unknown_item. intros Ha Hk. apply negb_true_iff in Ha.
-  apply orb_false_iff in Hk as [Hlossy Hunk].
+  induction sl as [|x r IH]; intros cur its H Hcur; [reflexivity|]. cbn [to_items] in H.
+  destruct (to_item cur x) as [it|] eqn:T; [|discriminate].
+  destruct (to_items (nsec cur x) r) as [its'|] eqn:T2; [|discriminate].
+  destruct (to_item_sec _ _ _ T Hcur) as [_ N2].
+  rewrite ann_cons_unknown, (to_item_known _ _ _ T), (IH _ _ T2 N2). reflexivity.
+Qed.
+
+Theorem load_eq_spec_load t : ascii_edges t = true -> load t = verdict_opt (spec_load t).
+Proof.
+  unfold ascii_edges. intros Ha. apply negb_true_iff in Ha.
   set (ls := text_lines t []) in *.
   assert (Esl : map (fun raw => classify (trim_ascii raw)) ls = map classify (map trim_ascii ls)) by now rewrite map_map.
-  rewrite Esl in Hunk.
-  assert (Hclean : lines_clean None (map trim_ascii ls) = true).
-  { apply lines_clean_of; [|assumption]. rewrite forallb_forall. intros l Hl. apply in_map_iff in Hl as (raw & <- & Hraw).
-    rewrite <- lossy_line_trimmed. destruct (lossy_line raw) eqn:E; [|reflexivity].
-    assert (existsb lossy_line ls = true) by (apply existsb_exists; eauto). congruence. }
-  rewrite (load_as_items t Ha Hclean). fold ls.
+  rewrite (load_as_items t Ha). fold ls.
   unfold spec_load, spec_load_lines. fold ls. rewrite Ha. rewrite Esl.
   set (sl := map classify (map trim_ascii ls)) in *.
-  rewrite !table_as_read. fold rdT rdH rdM. rewrite Hunk.
+  rewrite !table_as_read. fold rdT rdH rdM.
   destruct (to_items None sl) as [its|] eqn:T.
   - destruct (spec_link sl None its T ltac:(discriminate)) as (L1 & L2 & L3 & L4 & L5 & L6 & L7).
+    rewrite (spec_no_unknown sl None its T ltac:(discriminate)).
     rewrite L4, L5. cbn [orb].
     rewrite (L1 SecTQ (or_introl eq_refl)), (L1 SecTS (or_intror eq_refl)), (L2 SecHQ (or_introl eq_refl)),
       (L2 SecHS (or_intror eq_refl)), L3.
@@ -819,12 +868,17 @@ Proof.
     destruct (table_of (mtu_entries None its)); try reflexivity.
     cbn [verdict_opt]. f_equal. change (fun l => match l with SClasses cs => cs | _ => [] end) with cls_of.
     change (fun l => match l with SUaOs rs => rs | _ => [] end) with ua_of_line. now rewrite L6, L7.
-  - destruct (spec_fail sl None T ltac:(discriminate) Hunk) as [F|[F|F]].
-    + now rewrite F.
-    + rewrite F, orb_true_r. reflexivity.
+  - destruct (existsb unknown_item (annotate None sl)) eqn:Hunk.
     + destruct (existsb is_bad sl || existsb key_outside (annotate None sl)); [reflexivity|].
-      unfold tables_fail in F. destruct F as [F|[F|[F|[F|F]]]]; rewrite F;
-        repeat match goal with |- context [match ?o with Some _ => _ | None => _ end] =>
-                 match o with all_some _ => destruct o end end;
-        repeat match goal with |- context [table_of ?e] => destruct (table_of e) end; reflexivity.
+      repeat match goal with |- context [match ?o with Some _ => _ | None => _ end] =>
+               match o with all_some _ => destruct o end end;
+      repeat match goal with |- context [table_of ?e] => destruct (table_of e) end; reflexivity.
+    + destruct (spec_fail sl None T ltac:(discriminate) Hunk) as [F|[F|F]].
+      * now rewrite F.
+      * rewrite F, orb_true_r. reflexivity.
+      * destruct (existsb is_bad sl || existsb key_outside (annotate None sl)); [reflexivity|].
+        unfold tables_fail in F. destruct F as [F|[F|[F|[F|F]]]]; rewrite F;
+          repeat match goal with |- context [match ?o with Some _ => _ | None => _ end] =>
+                   match o with all_some _ => destruct o end end;
+          repeat match goal with |- context [table_of ?e] => destruct (table_of e) end; reflexivity.
 Qed.
